@@ -9,6 +9,7 @@ import (
 	"path/filepath"
 	"sort"
 	"strconv"
+	"strings"
 	"sync"
 	"time"
 )
@@ -131,6 +132,17 @@ func Shard() int {
 	return n
 }
 
+// fileShard distinguishes the report files of the worker processes of one go test -fuzz
+// campaign, which all inherit the same VERIF_SHARD.
+func fileShard() int {
+	for _, a := range os.Args {
+		if strings.HasPrefix(a, "-test.fuzzworker") {
+			return 1000000 + os.Getpid()
+		}
+	}
+	return Shard()
+}
+
 func Seed() uint64 {
 	n, _ := strconv.ParseUint(os.Getenv("VERIF_SEED"), 10, 64)
 	return n
@@ -189,7 +201,7 @@ func (c *Collector) Write() {
 	}
 	b, _ := json.Marshal(sf)
 	os.MkdirAll(dir, 0o755)
-	name := filepath.Join(dir, fmt.Sprintf("%s.%d.json", c.Property, Shard()))
+	name := filepath.Join(dir, fmt.Sprintf("%s.%d.json", c.Property, fileShard()))
 	os.WriteFile(name, b, 0o644)
 }
 
